@@ -13,6 +13,12 @@ use std::io::{BufRead, Write};
 mod common;
 use common::*;
 
+/// dump of a user key that the current master key did NOT just issue or refresh (refused refresh, possibly after a
+/// restore of an older master key): shown in the trace, not logged for the tracing-relation check against that master key
+fn quiet_usk(u: &UserSecretKey) -> String {
+    NOLOG.store(true, std::sync::atomic::Ordering::Relaxed); let d = dump_usk(u); NOLOG.store(false, std::sync::atomic::Ordering::Relaxed); d
+}
+
 fn show<T: std::ops::Deref<Target = [u8]>, E>(r: Result<std::collections::HashSet<T>, E>) -> String {
     match r { Ok(set) => { let mut v: Vec<String> = set.iter().map(|r| format!("r{}", hex(&r[..]))).collect(); v.sort(); format!("ok:{}", v.join(",")) } Err(_) => "err".to_string() }
 }
@@ -90,7 +96,7 @@ fn main() {
                 let k: usize = f[1].parse().unwrap(); let k = if usks.is_empty() { usize::MAX } else { k % usks.len() };
                 if k >= usks.len() { writeln!(out, "NOIDX|{}", dump_msk(&msk)).unwrap(); return; }
                 let r = cc.refresh_usk(&mut msk, &mut usks[k], f[2] == "1");
-                writeln!(out, "{}|{}|{}", if r.is_ok() { "OK" } else { "ERR" }, dump_msk(&msk), dump_usk(&usks[k])).unwrap();
+                writeln!(out, "{}|{}|{}", if r.is_ok() { "OK" } else { "ERR" }, dump_msk(&msk), if r.is_ok() { dump_usk(&usks[k]) } else { quiet_usk(&usks[k]) }).unwrap();
             }
             "EN" => {
                 let j: usize = f[1].parse().unwrap(); let j = if mpks.is_empty() { usize::MAX } else { j % mpks.len() };
@@ -135,11 +141,20 @@ fn main() {
             "RFBAD" => {
                 if usks.is_empty() { writeln!(out, "NOIDX|{}", dump_msk(&msk)).unwrap(); return; }
                 let k: usize = f[1].parse::<usize>().unwrap() % usks.len();
-                let mut b = usks[k].serialize().unwrap().to_vec(); let n = b.len(); b[n - 1] ^= 1;
+                let mut b = usks[k].serialize().unwrap().to_vec(); let n = b.len();
+                // damage mode: 0 = one signature bit flipped, 1 = signature stripped, 2 = one bit of the identifier flipped,
+                // 3 = one bit of a secret flipped, 4 = signature zeroed
+                match f.get(3).copied().unwrap_or("0") {
+                    "1" => { b.truncate(n - 32); }
+                    "2" => { b[1] ^= 1; }
+                    "3" => { b[n - 40] ^= 1; }
+                    "4" => { for x in &mut b[n - 32..] { *x = 0; } }
+                    _ => { b[n - 1] ^= 1; }
+                }
                 match UserSecretKey::deserialize(&b) {
                     Ok(mut bad) => { let r = cc.refresh_usk(&mut msk, &mut bad, f[2] == "1");
-                        writeln!(out, "{}|{}|{}", if r.is_ok() { "OK" } else { "ERR" }, dump_msk(&msk), dump_usk(&usks[k])).unwrap(); }
-                    Err(_) => writeln!(out, "ERR|{}|{}", dump_msk(&msk), dump_usk(&usks[k])).unwrap(),
+                        writeln!(out, "{}|{}|{}", if r.is_ok() { "OK" } else { "ERR" }, dump_msk(&msk), quiet_usk(&usks[k])).unwrap(); }
+                    Err(_) => writeln!(out, "ERR|{}|{}", dump_msk(&msk), quiet_usk(&usks[k])).unwrap(),
                 }
             }
             // backup / restore of the master key (an old serialized copy replaces the current one)
